@@ -41,7 +41,7 @@ func init() {
 
 func (*c09) Rule() string {
 	return "life cycles of real TCP and Redis processors: Stop and StopListen placed before the bind, during bind retries (port occupied), between bind and publication, right after start, with active connections, " +
-		"with requests in flight to responsive, silent and closed backends; connection limits 0..3 with arrivals over the limit. Non-trivial = Stop/StopListen at a parked point, or with an open connection, or a non-responsive backend; distinct by op line"
+		"with requests in flight to responsive, silent and closed backends; connection limits 0..3 with arrivals over the limit; bursts of 4..31 clients connecting at the same moment against limits 1..4 (exactly the limit is served). Non-trivial = Stop/StopListen at a parked point, or with an open connection, or a non-responsive backend; distinct by op line"
 }
 func (c *c09) Exec(op string) string { return c.iso.Exec(op) }
 func (c09child) Rule() string        { return "" }
@@ -351,10 +351,94 @@ func orDot(s string) string {
 
 func (c c09child) Exec(op string) string {
 	f := hx.Fields(op)
+	if len(f) >= 4 && f[0] == "c09.burst" {
+		return recoverStr(func() string { return c.burst(f[1:]) })
+	}
 	if len(f) < 2 || f[0] != "c09.life" {
 		return "bad-op"
 	}
 	return recoverStr(func() string { return c.life(f[1:]) })
+}
+
+// c09.burst <limit> <clients> <rounds>   a real TCP processor with a connection limit in front of a backend that greets and
+// holds every connection; per round all clients connect at the same moment, the connections are kept until everyone has its
+// verdict, then closed.   -> served=<per round: clients that got the greeting>
+func (c09child) burst(f []string) string {
+	limit, err1 := strconv.Atoi(f[0])
+	n, err2 := strconv.Atoi(f[1])
+	rounds, err3 := strconv.Atoi(f[2])
+	if err1 != nil || err2 != nil || err3 != nil || limit < 0 || n < 1 || n > 64 || rounds < 1 || rounds > 50 {
+		return "bad-op"
+	}
+	ln, err := net.Listen("tcp", "127.0.0.1:0")
+	if err != nil {
+		return "sockerr"
+	}
+	defer ln.Close()
+	var bmu sync.Mutex
+	var held []net.Conn
+	go func() {
+		for {
+			c, err := ln.Accept()
+			if err != nil {
+				return
+			}
+			bmu.Lock()
+			held = append(held, c)
+			bmu.Unlock()
+			c.Write([]byte{'g'})
+		}
+	}()
+	p, err := hx.NewTCPProc(service.LoadBalancePolicy_ROUND_ROBIN, 5*time.Second, uint32(limit), []*host.Host{host.New(ln.Addr().String())})
+	if err != nil {
+		return "procerr"
+	}
+	defer p.Stop()
+	var out []string
+	for r := 0; r < rounds; r++ {
+		start := make(chan struct{})
+		res := make(chan bool, n)
+		conns := make(chan net.Conn, n)
+		for i := 0; i < n; i++ {
+			go func() {
+				<-start
+				c, err := net.Dial("tcp", p.Address())
+				if err != nil {
+					res <- false
+					return
+				}
+				conns <- c
+				c.SetReadDeadline(time.Now().Add(1500 * time.Millisecond))
+				var b [1]byte
+				_, err = c.Read(b[:])
+				res <- err == nil
+			}()
+		}
+		close(start)
+		served := 0
+		for i := 0; i < n; i++ {
+			if <-res {
+				served++
+			}
+		}
+		out = append(out, strconv.Itoa(served))
+		// wind the round down: close both ends and wait until the proxy has released its registrations
+		close(conns)
+		for c := range conns {
+			c.Close()
+		}
+		bmu.Lock()
+		for _, c := range held {
+			c.Close()
+		}
+		held = nil
+		bmu.Unlock()
+		metric := hx.Metrics("service." + p.Name() + ".")
+		for t := 0; t < 2000 && metric("downstream.cx_active") != 0; t++ {
+			time.Sleep(time.Millisecond)
+		}
+	}
+	return "served=" + strings.Join(out, ",")
 }
 
 func (c *c09) Gen(r *hx.Run) {
@@ -377,6 +461,10 @@ func (c *c09) Gen(r *hx.Run) {
 				r.Do(fmt.Sprintf("c09.life %s r %d %s", proto, lim, sc), true, "limit")
 			}
 		}
+	}
+	// bursts: many clients at the same moment against a connection limit
+	for i := 0; i < r.N(6, 120); i++ {
+		r.Do(fmt.Sprintf("c09.burst %d %d %d", 1+rng.Intn(4), 4+rng.Intn(28), r.N(4, 12)), true, "burst")
 	}
 	for i := 0; i < r.N(20, 600); i++ {
 		proto := "TR"[rng.Intn(2):][:1]
